@@ -247,7 +247,8 @@ pub fn run(args: &Args) -> i32 {
     }
     let mut ev = Evidence::new(args, "exploration");
     ev.rule(super::c16_lab::SUB, super::c16_lab::rule());
-    ev.assume("baseline: the zombie sweep is configured out of the way (600 s): sessions have to be reclaimed by their own timeouts; 'back to baseline' is observed for front timeout + 4 s after the last harness socket was closed");
+    ev.assume("baseline: the zombie sweep is configured out of the way (600 s): sessions have to be reclaimed by their own timeouts; 'back to baseline' is observed for front timeout + 4 s after the last harness socket was closed, and for 2 x front timeout + 3 s while idle clients still hold their sockets (observed: an idle HTTP/2 connection over TLS whose peer stays silent is torn down in three stages one front timeout apart)");
+    ev.assume("baseline: Backend.active_connections / active_requests (load-balancing counters) are not exposed by QueryMetrics and are not observed; accept-queue saturation (storms above max_connections) is not generated here");
     for class in ["backend_timeout", "backend_refuses", "h2_idle_timeout", "client_abort_mid_response", "tcp_session"] {
         ev.floor(super::c16_lab::SUB, class, 0.15);
     }
